@@ -200,7 +200,15 @@ pub fn check(c: &Case, obs: &mut Obs) -> Result<(), Fail> {
     );
     let side = want_side as usize;
     let k = side as f64 / s as f64;
-    let module_rgba = c.cfg.module_color.as_ref().and_then(|x| x.rgba()).unwrap_or([0, 0, 0, 255]);
+    // the colour of the (single) layer: explicit through shape_color(), else the module colour, else black
+    let module_rgba = c
+        .cfg
+        .layers
+        .first()
+        .and_then(|l| l.1.as_ref())
+        .and_then(|x| x.rgba())
+        .or_else(|| c.cfg.module_color.as_ref().and_then(|x| x.rgba()))
+        .unwrap_or([0, 0, 0, 255]);
     let bg_rgba = c.cfg.background.as_ref().and_then(|x| x.rgba()).unwrap_or([255, 255, 255, 255]);
     let shape = c.cfg.layers.first().map(|l| l.0).unwrap_or(0);
     let px = |x: usize, y: usize| -> [u8; 4] {
@@ -350,8 +358,9 @@ pub fn case_strategy(versions: &'static [usize]) -> BoxedStrategy<Case> {
         colours(),
         prop_oneof![Just(None), (0u8..8).prop_map(Some)],
         warm_strategy(),
+        any::<bool>(),
     )
-        .prop_flat_map(|(v, li, margin, shape, (mc, bg), mask, warm)| {
+        .prop_flat_map(|(v, li, margin, shape, (mc, bg), mask, warm, layer_explicit)| {
             let cell = Cell { version: v, level: Level::from_index(li), mode: Mode::Byte };
             let s = size(v) + 2 * margin.unwrap_or(4);
             let pre = prop_oneof![3 => Just(Vec::new()), 2 => proptest::collection::vec((fit_strategy(s), any::<bool>()), 1..3)];
@@ -359,7 +368,7 @@ pub fn case_strategy(versions: &'static [usize]) -> BoxedStrategy<Case> {
                 fit_order,
                 pre_fits,
                 build,
-                cfg: SvgCfg { margin, layers: shape.map(|s| vec![(s, None)]).unwrap_or_default(), module_color: mc.clone(), background: bg.clone(), warm, ..SvgCfg::default() },
+                cfg: SvgCfg { margin, layers: shape.map(|s| vec![(s, if layer_explicit { mc.clone() } else { None })]).unwrap_or_default(), module_color: if layer_explicit && shape.is_some() { None } else { mc.clone() }, background: bg.clone(), warm, ..SvgCfg::default() },
                 fit,
             })
         })
